@@ -10,6 +10,7 @@ import (
 	"github.com/goatcms/goatcore/filesystem/fsloop"
 	"github.com/goatcms/goatcore/goathtml"
 	"github.com/goatcms/goatcore/varutil/goaterr"
+	"github.com/goatcms/goatcore/verifhook"
 )
 
 // Provider provide templates api
@@ -46,6 +47,7 @@ func NewProvider(fs filesystem.Filespace, helpersPath, layoutPath, viewPath, ext
 
 // Base return base template (with loaded helpers)
 func (provider *Provider) Base() (*template.Template, error) {
+	verifhook.Yield("tmpl.lookup")
 	provider.baseMutex.RLock()
 	baseTemplate := provider.baseTemplate
 	provider.baseMutex.RUnlock()
@@ -86,6 +88,7 @@ func (provider *Provider) Layout(name string) (*template.Template, error) {
 	if name == "" {
 		name = goathtml.DefaultLayout
 	}
+	verifhook.Yield("tmpl.lookup")
 	provider.layoutMutex.RLock()
 	tmpl, ok := provider.layouts[name]
 	provider.layoutMutex.RUnlock()
@@ -144,6 +147,7 @@ func (provider *Provider) View(layoutName, viewName string) (tmpl *template.Temp
 	}
 	key = layoutName + ":" + viewName
 	// check without lock (preformence feature)
+	verifhook.Yield("tmpl.lookup")
 	provider.viewMutex.RLock()
 	tmpl, ok = provider.views[key]
 	provider.viewMutex.RUnlock()
